@@ -126,7 +126,7 @@ macro_rules! c08_layout {
                 let a = AnyLayout::$ty($ty);
                 let _ = a.map_keycode(any_key(), &any_mods(), any_mode());
                 let r = &a;
-                let _ = r.map_keycode(any_key(), &any_mods(), any_mode());
+                let _ = <&AnyLayout as KeyboardLayout>::map_keycode(&r, any_key(), &any_mods(), any_mode());
                 kani::cover!(true);
             }
         }
